@@ -264,3 +264,189 @@ Proof.
   - subst h4 h2 h0. gs. rewrite !nth_upd_eq by bnd. simpl. apply lenZ_remove_swap in R. unfold getent in R. lia.
   - subst h4 h2 h0. gs. rewrite !nth_upd_eq by bnd. simpl. apply lenZ_remove_swap in R2. rewrite lenZ_push in R2. lia.
 Qed.
+
+(* ---------------------------------------------------------------- the per-connection operations *)
+Lemma upd_id {A} n (l : list A) : upd n (fun x => x) l = l.
+Proof. revert n; induction l; destruct n; simpl; f_equal; auto. Qed.
+Lemma upd_upd {A} (f g : A -> A) n (l : list A) : upd n f (upd n g l) = upd n (fun x => f (g x)) l.
+Proof. revert n; induction l; destruct n; simpl; f_equal; auto. Qed.
+Lemma updcs_id c h : updcs c (fun s => s) h = h.
+Proof. unfold updcs, with_cs. rewrite upd_id. destruct h; reflexivity. Qed.
+Lemma updcs_updcs c f g h : updcs c f (updcs c g h) = updcs c (fun s => f (g s)) h.
+Proof. unfold updcs, with_cs. simpl. rewrite upd_upd. reflexivity. Qed.
+
+Lemma try_unchoke_new_inv d v c h h' : v_dir v = d -> InvL d h -> try_unchoke_new v c h = Ok h' -> InvL d h'.
+Proof. intros Hd I. unfold try_unchoke_new. destruct (_ && _); [|intros H; injection H as <-; auto].
+  destruct (slot v c false h) as [[h1 r]|] eqn:S; [|discriminate]. simpl. intros H.
+  eapply inv_recv; [|exact H]. eapply slot_inv; eauto. Qed.
+
+Lemma set_queued_inv d v c h h' : v_dir v = d -> InvL d h -> (c < nc h)%nat -> cs_a (getcs h c) = true ->
+  (d = Dn -> cs_r (getcs h c) = true) -> set_queued v c h = Ok h' -> InvL d h'.
+Proof.
+  intros Hd I Hc A R. unfold set_queued. destruct (cs_q (getcs h c) || cs_u (getcs h c)) eqn:E; [intros H; injection H as <-; auto|].
+  apply orb_false_elim in E. destruct E as [Q U].
+  destruct (cs_s (getcs h c)) eqn:S.
+  - intros H; injection H as <-. apply flag_inv; auto.
+    + unfold inq; simpl. rewrite Q, S. rewrite !andb_false_r. reflexivity.
+    + unfold inu; simpl. rewrite U. discriminate.
+  - destruct (connection_queued c _) as [h2|] eqn:CQ; [|discriminate]. intros H.
+    eapply try_unchoke_new_inv; [exact Hd| |exact H].
+    eapply (enq_inv d h c (set_q true)); eauto.
+    + unfold inq. rewrite Q. rewrite !andb_false_r. reflexivity.
+    + unfold inu. rewrite U, andb_false_r. reflexivity.
+    + unfold inq; simpl. rewrite A, U, S. reflexivity.
+Qed.
+
+(* [fr] is the assignment to m_down_unchoked that precedes the call (identity on the upload side) *)
+Definition only_r (fr : cstat -> cstat) : Prop :=
+  forall s, cs_a (fr s) = cs_a s /\ cs_q (fr s) = cs_q s /\ cs_u (fr s) = cs_u s /\ cs_s (fr s) = cs_s s /\ cs_t (fr s) = cs_t s.
+
+Lemma set_not_queued_inv d v c fr h h' : v_dir v = d -> InvL d h -> (c < nc h)%nat -> cs_a (getcs h c) = true ->
+  only_r fr -> set_not_queued v c (updcs c fr h) = Ok h' -> InvL d h'.
+Proof.
+  intros Hd I Hc A FR. destruct (FR (getcs h c)) as (Fa & Fq & Fu & Fs & Ft).
+  set (h0 := updcs c fr h).
+  assert (G0 : getcs h0 c = fr (getcs h c)) by (subst h0; gs; rewrite nth_upd_eq by assumption; reflexivity).
+  unfold set_not_queued. rewrite G0, Fq, Fs, Fu.
+  destruct (cs_q (getcs h c)) eqn:Q; simpl.
+  2:{ intros H; injection H as <-. subst h0. apply flag_inv; auto.
+      - unfold inq. rewrite Fa, Fq, Fu, Fs. reflexivity.
+      - unfold inu. rewrite Fa, Fu. reflexivity.
+      - unfold inu. rewrite Fa, Fu, Fq, Fs. apply (iv_fl _ _ I c Hc).
+      - rewrite Fq, Q. discriminate. }
+  destruct (cs_s (getcs h c)) eqn:S.
+  - intros H; injection H as <-. subst h0. rewrite updcs_updcs. apply flag_inv; auto.
+    + unfold inq; simpl. rewrite Fs, S. rewrite !andb_false_r. reflexivity.
+    + unfold inu; simpl. rewrite Fa, Fu. reflexivity.
+    + unfold inu; simpl. rewrite Fa, Fu. intros X. destruct (iv_fl _ _ I c Hc X). congruence.
+    + simpl. discriminate.
+  - destruct (cs_u (getcs h c)) eqn:U.
+    + subst h0. rewrite updcs_updcs.
+      destruct (slot v c true _) as [[h1 r]|] eqn:SL; [|discriminate]. simpl.
+      unfold recv_unchoke. destruct (_ <? _); [discriminate|]. intros H.
+      rewrite <- (updcs_id c h').
+      eapply (choke_deq_inv d v c _ (fun s => s) h h1 r); [exact Hd|exact I|exact Hc| | | | | | | |exact SL|exact H]; simpl.
+      * unfold inu. rewrite A, U. reflexivity.
+      * auto.
+      * auto.
+      * intros _. right. reflexivity.
+      * unfold inq; simpl. rewrite !andb_false_r. reflexivity.
+      * unfold inu; simpl. rewrite andb_false_r. reflexivity.
+      * intros _. discriminate.
+    + subst h0. rewrite updcs_updcs. intros H. rewrite <- (updcs_id c h').
+      eapply (deq_inv d h c _ (fun s => s)); [exact I|exact Hc| | | | |exact H]; simpl.
+      * unfold inu. rewrite U, andb_false_r. reflexivity.
+      * unfold inq; simpl. rewrite !andb_false_r. reflexivity.
+      * unfold inu; simpl. rewrite Fu, U, andb_false_r. reflexivity.
+      * intros _. discriminate.
+Qed.
+
+Lemma set_snubbed_inv d v c h h' : v_dir v = d -> InvL d h -> (c < nc h)%nat -> cs_a (getcs h c) = true ->
+  set_snubbed v c h = Ok h' -> InvL d h'.
+Proof.
+  intros Hd I Hc A. unfold set_snubbed. destruct (cs_s (getcs h c)) eqn:S; [intros H; injection H as <-; auto|].
+  destruct (cs_u (getcs h c)) eqn:U.
+  - assert (IU : inu (getcs h c) = true) by (unfold inu; rewrite A, U; reflexivity).
+    destruct (iv_fl _ _ I c Hc IU) as [Q _].
+    destruct (slot v c true _) as [[h1 r]|] eqn:SL; [|discriminate]. simpl.
+    unfold recv_unchoke. destruct (_ <? _); [discriminate|].
+    destruct (connection_unqueued c _) as [h3|] eqn:CU; [|discriminate]. intros H; injection H as <-.
+    eapply (choke_deq_inv d v c (set_s true) (set_q false) h h1 r); [exact Hd|exact I|exact Hc|exact IU| | | | | | |exact SL|exact CU]; simpl; auto.
+    + intros Ed. left. apply (iv_r _ _ I Ed c Hc Q).
+    + unfold inq; simpl. rewrite !andb_false_r. reflexivity.
+    + unfold inu; simpl. rewrite andb_false_r. reflexivity.
+    + intros _. discriminate.
+  - destruct (cs_q (getcs h c)) eqn:Q; simpl.
+    + destruct (connection_unqueued c _) as [h3|] eqn:CU; [|discriminate]. intros H; injection H as <-.
+      eapply (deq_inv d h c (set_s true) (set_q false)); [exact I|exact Hc| | | | |exact CU]; simpl.
+      * unfold inu. rewrite U, andb_false_r. reflexivity.
+      * unfold inq; simpl. rewrite !andb_false_r. reflexivity.
+      * unfold inu; simpl. rewrite U, andb_false_r. reflexivity.
+      * intros _. discriminate.
+    + intros H; injection H as <-. apply flag_inv; auto.
+      * unfold inq; simpl. rewrite Q. rewrite !andb_false_r. reflexivity.
+      * unfold inu; simpl. rewrite U. discriminate.
+      * simpl. rewrite Q. discriminate.
+Qed.
+
+Lemma set_not_snubbed_inv d v c h h' : v_dir v = d -> InvL d h -> (c < nc h)%nat -> cs_a (getcs h c) = true ->
+  set_not_snubbed v c h = Ok h' -> InvL d h'.
+Proof.
+  intros Hd I Hc A. unfold set_not_snubbed. destruct (cs_s (getcs h c)) eqn:S; simpl; [|intros H; injection H as <-; auto].
+  assert (U : cs_u (getcs h c) = false).
+  { destruct (cs_u (getcs h c)) eqn:U; auto. assert (IU : inu (getcs h c) = true) by (unfold inu; rewrite A, U; reflexivity).
+    destruct (iv_fl _ _ I c Hc IU). congruence. }
+  rewrite U. destruct (cs_q (getcs h c)) eqn:Q; simpl.
+  - destruct (connection_queued c _) as [h2|] eqn:CQ; [|discriminate]. intros H.
+    eapply try_unchoke_new_inv; [exact Hd| |exact H].
+    eapply (enq_inv d h c (set_s false)); eauto.
+    + unfold inq. rewrite S. rewrite !andb_false_r. reflexivity.
+    + unfold inu. rewrite U, andb_false_r. reflexivity.
+    + unfold inq; simpl. rewrite A, Q, U. reflexivity.
+    + intros Ed. simpl. apply (iv_r _ _ I Ed c Hc Q).
+  - intros H; injection H as <-. apply flag_inv; auto.
+    + unfold inq; simpl. rewrite Q. rewrite !andb_false_r. reflexivity.
+    + unfold inu; simpl. rewrite U. discriminate.
+    + simpl. rewrite Q. discriminate.
+Qed.
+
+Lemma updtn_0 t h : updtn t 0 h = h.
+Proof. unfold updtn, with_tn. rewrite upd_add0. destruct h; reflexivity. Qed.
+
+Lemma close_inv d c h h' : InvL d h -> (c < nc h)%nat -> cs_a (getcs h c) = true ->
+  close_half c h = Ok h' -> InvL d h' /\ cs_a (getcs h' c) = false /\ nc h' = nc h.
+Proof.
+  intros I Hc A. pose proof (iv_wf _ _ I) as W.
+  pose proof (tor_lt h c W) as Ht. pose proof (grp_lt h (tor_of h c) W) as Hg.
+  unfold close_half. set (t := tor_of h c) in *.
+  set (p := fun s0 => set_a false (set_q false s0)).
+  assert (Fin : forall hx, nc hx = nc h -> InvL d (updcs c p hx) -> InvL d (updcs c p hx) /\ cs_a (getcs (updcs c p hx) c) = false /\ nc (updcs c p hx) = nc h).
+  { intros hx N X. split; auto. split.
+    - gs. rewrite nth_upd_eq by (unfold nc in *; lia). reflexivity.
+    - unfold nc in *. gs. rewrite length_upd. auto. }
+  destruct (cs_u (getcs h c)) eqn:U.
+  - assert (IU : inu (getcs h c) = true) by (unfold inu; rewrite A, U; reflexivity).
+    destruct (iv_fl _ _ I c Hc IU) as [Q S]. rewrite S.
+    unfold recv_unchoke. simpl h_cur. destruct (_ <? _); [discriminate|].
+    set (h1 := with_cur _ _). change (getent h1 t) with (getent h t). change (grp_of h1 t) with (grp_of h t).
+    set (g := grp_of h t) in *.
+    destruct (remove_swap c (e_u (getent h t))) as [u'|] eqn:R; [|discriminate].
+    destruct (remove_swap_spec _ _ _ R (iv_ndu _ _ I t Ht)) as (NDu' & Iu' & _).
+    intros H; injection H as <-. apply Fin; [unfold nc; subst h1; gs; rewrite ?length_upd; reflexivity|].
+    match goal with |- InvL d ?X => set (h4 := X) end.
+    assert (G4 : getcs h4 c = p (getcs h c)) by (subst h4 h1; gs; rewrite !nth_upd_eq by bnd; reflexivity).
+    assert (Q4 : inq (getcs h4 c) = false) by (rewrite G4; reflexivity).
+    assert (U4 : inu (getcs h4 c) = false) by (rewrite G4; reflexivity).
+    assert (Hq : ~ In c (ids (e_q (getent h t)))).
+    { rewrite (iv_mq _ _ I t c Ht). intros (_ & _ & X). apply inq_true in X. destruct X as (_ & _ & X & _). congruence. }
+    apply (reinv d h h4 c I Hc); try (subst h4 h1; frame_tac); fold t; fold g; rewrite ?Q4, ?U4.
+    + subst h4 h1. gs. rewrite !nth_upd_eq by bnd. reflexivity.
+    + subst h4 h1. gs. rewrite !nth_upd_eq by bnd. simpl. apply I; auto.
+    + subst h4 h1. gs. rewrite !nth_upd_eq by bnd. simpl. auto.
+    + intros y. subst h4 h1. gse. rewrite !nth_upd_eq by bnd. simpl.
+      split; [intros X; left; split; auto; intros ->; auto|intros [[_ X]|[_ X]]; [auto|discriminate]].
+    + intros y. subst h4 h1. gse. rewrite !nth_upd_eq by bnd. simpl. rewrite Iu'. intuition congruence.
+    + discriminate.
+    + intros _. rewrite G4. simpl. discriminate.
+    + subst h4 h1. gs. rewrite !nth_upd_eq by (rewrite ?length_upd, ?(wf_tn _ W); assumption). simpl.
+      apply lenZ_remove_swap in R. unfold getent in R. lia.
+    + subst h4 h1. gs. rewrite !nth_upd_eq by bnd. simpl. apply lenZ_remove_swap in R. unfold getent in R. lia.
+    + subst h4 h1. gs. rewrite !nth_upd_eq by bnd. simpl. lia.
+  - rewrite updtn_0.
+    assert (IU : inu (getcs h c) = false) by (unfold inu; rewrite U, andb_false_r; reflexivity).
+    destruct (cs_s (getcs h c)) eqn:S; [|destruct (cs_q (getcs h c)) eqn:Q].
+    + intros H; injection H as <-. apply Fin; auto. apply flag_inv; auto.
+      * unfold inq at 2. rewrite S, !andb_false_r. reflexivity.
+      * discriminate.
+      * intros _. discriminate.
+    + intros H. destruct (connection_unqueued c h) as [h2|] eqn:CU; [|discriminate]. injection H as <-.
+      assert (N2 : nc h2 = nc h).
+      { unfold connection_unqueued in CU. destruct (remove_swap _ _); [|discriminate]. injection CU as <-. reflexivity. }
+      apply Fin; auto. rewrite <- (updcs_id c h) in CU.
+      eapply (deq_inv d h c (fun s => s) p); [exact I|exact Hc|exact IU| | | |exact CU]; try reflexivity.
+      intros _. discriminate.
+    + intros H; injection H as <-. apply Fin; auto. apply flag_inv; auto.
+      * unfold inq at 2. rewrite Q, !andb_false_r. reflexivity.
+      * discriminate.
+      * intros _. discriminate.
+Qed.
